@@ -105,11 +105,13 @@ def RULE(tier):
         "EVERY chunking of every listed shape x: reshape to every ordered factorisation of the size into <= "
         f"{4 if t else 3} axes (each also with one axis given as -1; ravel/flatten/int) x merge_chunks; every axis permutation for transpose, every "
         "(source,destination) for moveaxis/swapaxes/rollaxis (negative axes too); squeeze/expand_dims over every axis and axis tuple; "
-        "concatenate/stack/hstack/vstack/dstack of 2-3 dask/NumPy arrays over every axis (None and negative too) with every chunking of every part; "
-        "block over 1- and 2-level layouts; broadcast_to every compatible target of <= 3 axes over sizes {0,1,2,3} with chunks= hints; flip/flipud/fliplr/"
-        "rot90 (k in -2..5, every axes pair); take with every index vector of length <= 3 over [-n,n) (list/ndarray/dask/int) per axis; shuffle with every "
-        f"grouping of every permutation and of every index sequence of length <= 3; repeat (0..3) / tile (ints and tuples over 0..3); pad: 11 modes x "
-        f"asymmetric widths 0..{3 if t else 2} per side x keyword variants (constant_values, end_values, stat_length, reflect_type); tril/triu for every k; "
+        "concatenate/stack/hstack/vstack/dstack of 2-3 dask/NumPy arrays over every axis (None and negative too) with every chunking of every part (stack of three / 2x2 block grids: every chunking of two parts x 3 of the others); "
+        "block over 1- and 2-level layouts; broadcast_to every compatible target of <= 3 axes over sizes {0,1,2,3} with legal chunks= hints; flip/flipud/fliplr/"
+        f"rot90 (k in -2..5, every axes pair); take per axis with every index vector of length <= 3 (n-d inputs: <= {3 if t else 2}) over [-n,n) as list/ndarray/dask "
+        "array, every int, and a 2-d index array; shuffle with every grouping of every permutation and of every index sequence of length <= 3 (duplicates, "
+        "subsets); repeat (0..3) / tile (ints and tuples over 0..3); pad: 11 modes (20 mode/keyword variants: constant_values, end_values, stat_length, "
+        f"reflect_type) x 1-d every (before, after) width in 0..{3 if t else 2} on n<={6 if t else 4}, 2-d {81 if t else 36} asymmetric per-axis width combinations, "
+        "3-d two widths; tril/triu for every k; "
         "diff (n 0..3, prepend/append scalar or array); roll by every shift in [-n-1,n+1] per axis, flattened and multi-axis. Shapes: 1-d n<="
         f"{7 if t else 5}, 2-d up to {'4x4' if t else '3x4'}, 3-d (2,2,2),(1,2,3),(2,3,2), zero-length axes included. Oracle: exact values, dtype, lazy "
         "shape/chunks vs computed blocks. non-trivial = some dask input has >= 2 chunks."
